@@ -174,20 +174,40 @@ def job_moment(WG, job, seed):
     M = 6
     scale = [0.01, 1.0, 30.0, 1e3][job["scale"]]         # momentum scale T0
     gk = job.get("grid", "Grid")
-    ev = {"e": "moment", "N": N, "scale": job["scale"], "mass": job["mass"], "grid": gk}
+    bM, bN = job.get("bM", "Cardinal"), job.get("bN", "Cardinal")
+    ev = {"e": "moment", "N": N, "scale": job["scale"], "mass": job["mass"], "grid": gk, "bM": bM, "bN": bN}
     rng = np.random.default_rng(seed + 7 * N + job["scale"] + 31 * job["mass"])
     # same momentum map on both grid classes (p_z = 2 T0 atanh(rho_z), p_par = -T0 log((1-rho_par)/2)); Grid3Scales has its own
     # implementation of the Jacobians
     grid = WG.Grid(M, N, 1.0, scale) if gk == "Grid" else WG.Grid3Scales(M, N, 3.0, 2.0, 1.0, scale, 0.75, 0.1)
     parts = particles(WG, 2)
-    bs = WG.BoltzmannSolver(grid, "Cardinal", "Cardinal")
+    bs = WG.BoltzmannSolver(grid, bM, bN)
     bs.updateParticleList(parts)
+    getDeltasNodal = bs.getDeltas
+
+    def from_cardinal(f):
+        """nodal values -> coefficients in the solver's bases (inverse of to_cardinal, own matrices)"""
+        f = np.asarray(f, float)
+        if bM == "Chebyshev":
+            Tz = cheb_matrix(nodes(M)[1:M], np.arange(2, M + 1), "z", False)
+            f = np.einsum("xi,aijk->axjk", np.linalg.inv(Tz), f)
+        if bN == "Chebyshev":
+            Tp = cheb_matrix(nodes(N)[1:N], np.arange(2, N + 1), "pz", False)
+            Tq = cheb_matrix(nodes(N - 1)[0:N - 1], np.arange(1, N), "pp", False)
+            f = np.einsum("yj,zk,aijk->aiyz", np.linalg.inv(Tp), np.linalg.inv(Tq), f)
+        return f
+
+    class _BS:      # the rest of this function speaks nodal values; the solver is handed its own bases
+        def getDeltas(self, f):
+            return getDeltasNodal(from_cardinal(f))
+
     chi = grid.getCompactCoordinates(endpoints=True)[0]
     # mass profile: massless / constant / varying through the wall (phi in units of the momentum scale)
     phi = [0.0 * chi, 0.7 * scale * np.ones_like(chi), scale * (1 - chi)][job["mass"]]
     fields = WG.Fields.castFromNumpy(phi[:, None])
     bs.setBackground(WG.BoltzmannBackground(-0.4, -0.4 * np.ones_like(chi), fields, scale * np.ones_like(chi)))
-    bs.setCollisionArray(collision(WG, grid, parts, "Cardinal", rng))        # getDeltas also evaluates the linearisation criteria
+    bs.setCollisionArray(collision(WG, grid, parts, bN, rng))        # getDeltas also evaluates the linearisation criteria
+    bs = _BS()
     rz, rp = nodes(N)[1:N], nodes(N - 1)[0:N - 1]
     pz = 2 * scale * np.arctanh(rz)
     pp = -scale * np.log((1 - rp) / 2)
